@@ -12,4 +12,5 @@ import PeptVerif.Props.C01
 #print axioms Pept.serialize_fixpoint
 #print axioms Pept.parse_serialize_multi_partial
 #print axioms Pept.parse_joined
+#print axioms Pept.parse_serializeMultiFixed
 #print axioms Pept.parse_serialize_crosslink_false
